@@ -23,6 +23,7 @@ import (
 	"encoding/json"
 	"fmt"
 	"math/big"
+	"strconv"
 	"strings"
 
 	btcconfig "github.com/ChainSafe/sygma-relayer/chains/btc/config"
@@ -559,7 +560,61 @@ func runUpl(c Case) Obs {
 	if err != nil {
 		return Obs{Err: err.Error()}
 	}
+	if c.Field == "elapsed" {
+		return Obs{Ok: true, Value: strconv.FormatInt(int64(cfg.RelayerConfig.UploaderConfig.MaxElapsedTime), 10)}
+	}
 	return Obs{Ok: true, Value: new(big.Int).SetUint64(cfg.RelayerConfig.UploaderConfig.MaxRetries).String() + "/1"}
+}
+
+// uploaderConfig.maxElapsedTime (a time.Duration): numbers (nanoseconds) at the int64 edges, fractions,
+// duration texts of the <digits><unit> grammar at the int64 edge of every unit, texts that are no
+// duration (a bare number among them), bools, the key left out
+var elapsedStrings = []string{"5m", "300000ns", "0s", "0h", "1ns", "1us", "1ms", "1s", "1m", "1h", "300s", "9223372036854775807ns", "9223372036854775808ns",
+	"9223372036854775us", "9223372036854776us", "9223372036s", "9223372037s", "153722867m", "153722868m", "2562047h", "2562048h",
+	"300000", "5", "", "abc", "5 m", "m", "5x", "-", "5M"}
+
+func genElapsed(r *vgen.Rng, tier string) []Case {
+	var out []Case
+	i := 0
+	add := func(w WNum) {
+		w2 := w
+		out = append(out, Case{Kind: "upl", Field: "elapsed", Loader: []string{"file", "file0"}[i%2], W: &w2})
+		i++
+	}
+	p31, p32, p53, p63, p64 := pow2(31), pow2(32), pow2(53), pow2(63), pow2(64)
+	for _, z := range bigs(neg(pow2(100)), neg(p64), neg(p63), neg(p53), neg(p31), -256, -2, -1, 0, 1, 2, 5, 255, 65536, 300000, p31, p32, plus(p32, 1),
+		plus(p53, -1), p53, pow2(62), p63, p64, pow2(65), pow2(100)) {
+		z := z
+		add(WNum{Z: &z, How: "float"})
+	}
+	for _, fr := range numIntFracs {
+		fr := fr
+		add(WNum{R: &fr})
+	}
+	for _, s := range elapsedStrings {
+		s := s
+		add(WNum{S: &s})
+	}
+	for _, b := range []bool{true, false} {
+		b := b
+		add(WNum{B: &b})
+	}
+	add(WNum{Absent: true})
+	n := 6
+	if tier == "thorough" {
+		n = 200
+	}
+	for j := 0; j < n; j++ {
+		z := r.BigBits(r.Range(1, 53))
+		if r.Chance(1, 3) {
+			z.Neg(z)
+		}
+		s := z.String()
+		add(WNum{Z: &s, How: "float"})
+		t := fmt.Sprintf("%d%s", r.Range(0, 100000), vgen.Pick(r, []string{"ns", "us", "ms", "s", "m", "h"}))
+		add(WNum{S: &t})
+	}
+	return out
 }
 
 var uplStrings = []string{"5", "0", "1", "18446744073709551615", "18446744073709551616", "-1", "abc", "", " 5", "5 ", "0x10", "0b101", "0o17", "1_000", "010", "08", "+5", "1e3", "1.5"}
@@ -642,6 +697,12 @@ func coqUpl(c Case, o Obs) string {
 		w.How = "float"
 	}
 	impl := "None"
+	if c.Field == "elapsed" {
+		if o.Ok {
+			impl = vgen.Some(zOfDec(o.Value))
+		}
+		return "Elapsed " + coqWNum(w) + " " + impl
+	}
 	if o.Ok {
 		impl = vgen.Some(coqRat(o.Value))
 	}
